@@ -38,6 +38,10 @@ def concStoreLine (st : CsRun) (lineNo : Nat) (line : String) : Except String (C
       (if n "lock_leak" == 0 then [] else
         [s!"PROPFAIL C12 never_waits_for_service {tag} (after a failed updater lookup the readers stopped making progress, or the failure was not reported)",
          s!"PROPFAIL C16 failed_installs_nothing {tag} (a failed updater lookup left the store unusable)"]) ++
+      (if n "cache_behind" == 0 then [] else
+        [s!"PROPFAIL C13 flush_whole_document {tag} (with everything settled the cache document lacks a secret the store serves, or holds another version of it)",
+         s!"PROPFAIL C16 polled_like_any_other {tag} (cache behind the store after lookups)",
+         s!"PROPFAIL C19 drop_only_if {tag} (a secret with a live handle is missing from, or stale in, the cache)"]) ++
       (if n "upd_e_stale" == 0 then [] else [s!"PROPFAIL C15 no_lost_update {tag} (an updater on a looked-up secret is built from old bytes after a completed refresh)"]) ++
       (if n "cu_stale_get" == 0 then [] else [s!"PROPFAIL C15 next_get_sees_newest {tag}"]) ++
       (if ((lookup fs "cu_final").getD "2") == "2" then [] else [s!"PROPFAIL C15 no_lost_update {tag} (quiescent Get after two installs)"]) ++
